@@ -19,7 +19,7 @@ import vcheck as V
 PID = "C14"
 TRUSTED = [
     "Coq 8.16.1 kernel (coqc); vm_compute in closed witnesses (toy instance) and examples; no native_compute",
-    "axioms: none (Print Assumptions: Closed under the global context for all 17 theorems)",
+    "axioms: none (Print Assumptions: Closed under the global context for every theorem of Properties/C14.v)",
     "premises (Section hypothesis prim_laws, not axioms): HMAC-SHA512 returns 64 bytes; hash160 20, double-SHA256 32 bytes; base58 decode inverts encode; "
     "compressed points are 33 bytes with first byte non-zero, decode(encode P) = P for P not at infinity, a 33-byte string that decodes re-encodes to itself; "
     "(a+b mod n)G = aG + bG; kG for 0<k<n is not infinity and has no zero coordinate; kG and kG+P serialise with X < p. "
@@ -32,7 +32,7 @@ TRUSTED = [
     "Go harness harness/cmd/c14 (generators, recover() wrapper, independent BIP-32 implementation ref.go, anticipated primitive questions) built from /repo with -tags verif; "
     "add-only accessors /repo/masswallet/keystore/hdkeychain/extendedkey_verif.go and /repo/masswallet/keystore/hd_verif.go",
     "modelled, not verified: Go's copy/append/big.Int.Bytes/SetBytes/binary.BigEndian semantics and config.HDPrivateKeyToPublicKeyID's registry as restated in Codec/Bip32.v; "
-    "the memoised pubKey field, Zero(), SetNet(), IsForNet(), Address(), GenerateSeed() are not modelled",
+    "key OBJECTS (shared byte slices, the memoised pubKey field, Zero wiping in place) are modelled in Codec/Bip32Obj.v (heap of buffers, separation invariant); SetNet(), IsForNet(), Address(), GenerateSeed() are not modelled",
 ]
 KNOWN_KEY = "short-parent-hardened-child"
 TRIVIAL_ERR = ("err EInvalidSeedLen", "err EInvalidKeyLen")
